@@ -1,6 +1,66 @@
 import KitModel.Go.Prelude
+import KitModel.CronSpec
+/-!
+Driver for C04 (Next half): `kitdrv C04 next`.  One request per line, one answer per line.
+
+* `zone tab=<start>:<off>,<start>:<off>,…` → `ok n=<k>`            (sets the current zone)
+* `next sec= min= hour= dom= month= dow= t=<unix ns>`                → `at <unix s>` | `zero` | `fuel`
+* `every delay=<ns> t=<unix ns>` → `at <unix ns>`;  `everyd d=<ns>` → `delay <ns>`
+* `civil t=<unix s>` → `<year> <month> <day> <hour> <minute> <second> <weekday> <offset>`
+* `date y= m= d= h= mi= s=` → `<unix s>`
+-/
 namespace Driver.C04Next
+open Kit Kit.CronSpec
+
+def parseEntry (w : String) : Option (Int × Int) :=
+  match w.splitOn ":" with
+  | [a, b] => do
+    let x ← a.toInt?
+    let y ← b.toInt?
+    pure (x, y)
+  | _ => none
+
+def parseZone (s : String) : Option Zone :=
+  if s == "" then none else (s.splitOn ",").mapM parseEntry
+
+def showResult : Result → String
+  | .at t => s!"at {t}"
+  | .zero => "zero"
+  | .fuel => "fuel"
+
+def step (z : Zone) (line : String) : Zone × String :=
+  let l := parseLine line
+  match l.op with
+  | "zone" =>
+    match (l.get? "tab").bind parseZone with
+    | some z' => (z', s!"ok n={z'.length}")
+    | none => (z, "error bad zone table")
+  | "next" =>
+    match l.nat? "sec", l.nat? "min", l.nat? "hour", l.nat? "dom", l.nat? "month", l.nat? "dow",
+        l.int? "t" with
+    | some a, some b, some c, some d, some e, some f, some t =>
+      (z, showResult (next ⟨a, b, c, d, e, f⟩ z t))
+    | _, _, _, _, _, _, _ => (z, "error bad next request")
+  | "every" =>
+    match l.int? "delay", l.int? "t" with
+    | some d, some t => (z, s!"at {everyNext d t}")
+    | _, _ => (z, "error bad every request")
+  | "everyd" =>
+    match l.int? "d" with
+    | some d => (z, s!"delay {everyDelay d}")
+    | none => (z, "error bad everyd request")
+  | "civil" =>
+    match l.int? "t" with
+    | some t =>
+      (z, s!"{year z t} {month z t} {day z t} {hour z t} {minute z t} {second z t} {wday z t} {offsetAt z t}")
+    | none => (z, "error bad civil request")
+  | "date" =>
+    match l.int? "y", l.int? "m", l.int? "d", l.int? "h", l.int? "mi", l.int? "s" with
+    | some y, some m, some d, some h, some mi, some s => (z, s!"{goDate z y m d h mi s}")
+    | _, _, _, _, _, _ => (z, "error bad date request")
+  | op => (z, s!"error unknown op {op}")
+
 def main (_args : List String) : IO UInt32 := do
-  IO.eprintln "kitdrv: C04 Next driver not written yet"
-  return 2
+  lineLoop step (fixedZone 0)
+  return 0
 end Driver.C04Next
